@@ -144,11 +144,11 @@ def _esc(s: str) -> str:
 
 
 def forms_part(run, tier):
-    evs = cd.generate(400 if tier == "quick" else 4000, run.seed)
+    evs = cd.generate(400 if tier == "quick" else 1500, run.seed)
     evs, malformed = cd.split_malformed(evs)
     for ev in malformed:
         run.violation(f"answer:malformed|{ev['method']}|{ev['form']}", {"kind": "shape", "event": ev})
-    res, rep = cd.validate(evs)
+    res, rep = cd.validate(evs, timeout=2700)
     run.add_tlc("CoordTrace validation (methods x coordinate forms)", res)
     if rep is None:
         run.machinery("CoordTrace produced no report:\n" + res.stdout[-2000:])
